@@ -14,8 +14,15 @@
     crash of any kind ([core_total_edit], a corollary of edit_refines_buffer).
     With candidates ending at or after their segment's start, also [ErrFuel] is
     unreachable ([core_total_except_substr]).
-    NOT proved: that [ErrSubstr] is unreachable for arbitrary histories
-    ([core_total_full] below is the full statement).  The geometric invariant
+    PROVED in Eng/TotalFull.v and restated at the end of this file ([core_total]):
+    with the candidate-shape hypothesis [cands_fit] (every candidate ends inside
+    the segment it was made for and covers at least one byte of it – true of the
+    oracle translator, [oracle_cands_fit]) NO observation of ANY history is a
+    crash of any kind.  Without that hypothesis the statement is false
+    ([core_total_full_refuted]: a translator whose candidate ends beyond the
+    input makes GetPreedit call substr with pos > size).
+    History of the gap (closed by TotalFull.v): [ErrSubstr] was open for arbitrary histories
+    ([core_total_full] below is the statement without the shape hypothesis).  The geometric invariant
     (segments contiguous from 0, start <= end <= |composition input|) is carried
     and rules out the substr calls of TranslateSegments and GetCommitText; what
     is missing is that every selected candidate of a non-last segment ends inside
@@ -29,7 +36,7 @@
 From Coq Require Import List Arith NArith ZArith Bool Lia.
 From Coq.Strings Require Import Byte.
 From RimeV Require Import Base.Bytes Eng.Keys Eng.Cand Eng.Menu Eng.Segm Eng.Ctx Eng.Engine Eng.Procs
-     Eng.Api Eng.Oracle Eng.Spec Eng.EditProofs Eng.WfProofs Eng.CommitProofs Eng.InvProofs.
+     Eng.Api Eng.Oracle Eng.Spec Eng.EditProofs Eng.WfProofs Eng.CommitProofs Eng.InvProofs Eng.TotalFull.
 Import ListNotations.
 
 Definition total_hyps (cfg : config) (translate : bytes -> seginfo -> list cand) : Prop :=
@@ -104,4 +111,111 @@ Proof.
   intros fluid dlog. apply core_total_except_substr.
   - split; [cbn; lia|]. split; [|reflexivity]. intros i s. pose proof (InvProofs.oracle_translate_length i s). cbn. lia.
   - intros i s c. apply oracle_translate_end.
+Qed.
+
+(** ---- the full theorem (proof: Eng/TotalFull.v) ----
+    for EVERY history of API operations with arbitrary arguments, under the
+    hypotheses of C02_wf_reported plus the candidate-shape hypothesis
+    [cands_fit]: no observation is an [ObsCrash] of any kind (no substr with
+    pos > size, no null dereference, no invalid page range, and
+    CalculateSegmentation within its |input| + 1 rounds) *)
+Theorem core_total :
+  forall cfg translate, total_hyps cfg translate -> cands_fit translate ->
+  forall ops, forallb not_crash (snd (run cfg translate ops)) = true.
+Proof. intros cfg translate (H1 & H2 & H3) Hf ops. exact (TotalFull.core_total cfg translate H1 H2 H3 Hf ops). Qed.
+
+(** the oracle translator of the synthetic schemas meets the shape hypothesis *)
+Lemma oracle_cands_fit : cands_fit oracle_translate.
+Proof.
+  intros input seg c H0. apply InvProofs.oracle_translate_incl in H0. revert H0.
+  unfold oracle_translate_full. destruct input as [|c0 r] eqn:Ei; [intros []|]. rewrite <- Ei. 
+  assert (Hn : 1 <= length input) by (rewrite Ei; cbn; lia).
+  destruct (Byte.eqb c0 x78); [intros []|].
+  intros H. apply in_flat_map in H as (L & HL & H). apply in_map_iff in H as (j & <- & _). cbn [c_end oracle_cand].
+  assert (1 <= L <= length input); [|lia].
+  destruct (Byte.eqb c0 x75 || Byte.eqb c0 x76).
+  - destruct HL as [<- | []]. lia.
+  - apply in_app_or in HL as [[<- | []] | HL]; [lia|].
+    apply in_app_or in HL as [HL | HL]; [destruct (2 <=? length input) eqn:E2; [apply Nat.leb_le in E2; destruct HL as [<- | []]; lia | destruct HL]|].
+    apply in_app_or in HL as [HL | HL]; [destruct (3 <=? length input) eqn:E3; [apply Nat.leb_le in E3; destruct HL as [<- | []]; lia | destruct HL]|].
+    destruct (4 <=? length input) eqn:E4; [apply Nat.leb_le in E4; destruct HL as [<- | []]; lia | destruct HL].
+Qed.
+
+Theorem core_total_synth :
+  forall fluid dlog ops, forallb not_crash (snd (run (synth_cfg fluid dlog) oracle_translate ops)) = true.
+Proof.
+  intros fluid dlog. apply core_total; [|exact oracle_cands_fit].
+  split; [cbn; lia|]. split; [|reflexivity]. intros i s. pose proof (InvProofs.oracle_translate_length i s). cbn. lia.
+Qed.
+
+(** C03's exactly-once without the no-crash hypothesis *)
+Theorem exactly_once_total :
+  forall cfg translate, total_hyps cfg translate -> cands_fit translate ->
+  forall ops,
+    concat (map read_of (snd (run cfg translate ops))) ++ st_commit (fst (run cfg translate ops))
+    = concat (deliveries cfg translate (init_state cfg) ops).
+Proof. intros cfg translate Hh Hf ops. apply exactly_once, core_total; assumption. Qed.
+
+(** every observation of every history is a regular one (the state is never poisoned) *)
+Lemma run_from_snoc cfg translate o l : forall s,
+  fst (run_from cfg translate s (l ++ [o])) = fst (step cfg translate (fst (run_from cfg translate s l)) o) /\
+  snd (run_from cfg translate s (l ++ [o])) = snd (run_from cfg translate s l) ++ [snd (step cfg translate (fst (run_from cfg translate s l)) o)].
+Proof.
+  induction l as [|x l IH]; intros s; cbn [app run_from].
+  - cbn [fst snd app]. destruct (step cfg translate s o) as [s1 ob]. cbn. split; reflexivity.
+  - destruct (step cfg translate s x) as [s1 ob]. specialize (IH s1).
+    destruct (run_from cfg translate s1 (l ++ [o])) as [s2 obs]. destruct (run_from cfg translate s1 l) as [s3 obs3]. cbn [fst snd] in *.
+    destruct IH as (I1 & I2). split; [exact I1 | rewrite I2; reflexivity].
+Qed.
+
+Lemma reachable_not_crash cfg translate :
+  total_hyps cfg translate -> cands_fit translate ->
+  forall ops o, not_crash (snd (step cfg translate (fst (run cfg translate ops)) o)) = true.
+Proof.
+  intros Hh Hf ops o.
+  pose proof (core_total cfg translate Hh Hf (ops ++ [o])) as H. unfold run in *.
+  destruct (run_from_snoc cfg translate o ops (init_state cfg)) as (_ & E2). rewrite E2, forallb_app in H. apply andb_prop in H as (_ & H).
+  cbn in H. rewrite andb_true_r in H. exact H.
+Qed.
+
+(** C03's read theorems in every reachable state, without the no-crash hypothesis *)
+Theorem read_takes_all_total :
+  forall cfg translate, total_hyps cfg translate -> cands_fit translate ->
+  forall ops, let s := fst (run cfg translate ops) in
+    read_of (snd (step cfg translate s OpGetCommit)) = st_commit s /\
+    st_commit (fst (step cfg translate s OpGetCommit)) = [] /\
+    (exists v, snd (step cfg translate s OpGetCommit)
+               = Obs (RCommit (match st_commit s with [] => None | t => Some t end)) v).
+Proof.
+  intros cfg translate Hh Hf ops. cbv zeta. apply get_commit_step, reachable_not_crash; assumption.
+Qed.
+
+Theorem second_read_empty_total :
+  forall cfg translate, total_hyps cfg translate -> cands_fit translate ->
+  forall ops, let s := fst (run cfg translate ops) in
+    let r1 := step cfg translate s OpGetCommit in
+    let r2 := step cfg translate (fst r1) OpGetCommit in
+    read_of (snd r2) = [] /\ exists v, snd r2 = Obs (RCommit None) v.
+Proof.
+  intros cfg translate Hh Hf ops. cbv zeta.
+  apply second_read_empty; [apply reachable_not_crash; assumption|].
+  pose proof (reachable_not_crash cfg translate Hh Hf (ops ++ [OpGetCommit]) OpGetCommit) as H.
+  unfold run in *. destruct (run_from_snoc cfg translate OpGetCommit ops (init_state cfg)) as (E & _).
+  rewrite E in H. exact H.
+Qed.
+
+(** the shape hypothesis is needed: [core_total_full] (no hypothesis on where
+    candidates end) is false – a translator whose single candidate ends 10
+    bytes after its segment's start: type "a", select it (fluid editor: the
+    segment is confirmed and a new empty one opened); GetPreedit then continues
+    from end = 10 and calls substr(10, ...) on a 1-byte string. *)
+Definition long_translate (i : bytes) (s : seginfo) : list cand :=
+  match i with [] => [] | _ => [mkCand (si_start s) (si_start s + 10) [x41] [] []] end.
+
+Theorem core_total_full_refuted : ~ core_total_full.
+Proof.
+  intros H. specialize (H (synth_cfg true true) long_translate).
+  assert (Hh : total_hyps (synth_cfg true true) long_translate).
+  { split; [cbn; lia|]. split; [|reflexivity]. intros i s. destruct i; cbn; lia. }
+  specialize (H Hh [OpKey 97 0; OpSelect 0]). vm_compute in H. discriminate H.
 Qed.
